@@ -931,7 +931,24 @@ fn app_step(w: &mut World, st: &mut St, n: usize, tape: &mut Tape) -> Result<boo
         if room > 0 {
             let want = tape.size(1, (a.to_send - a.sent).min(2 * a.tx_cap as u64)) as usize;
             let buf: Vec<u8> = (0..want as u64).map(|j| stream_byte(a.key_tx, a.sent + j)).collect();
-            let k = guard("tcp::send_slice", || s.send_slice(&buf))?;
+            // send_slice, or the closure form (which hands out one contiguous piece of the ring and lets the
+            // application use only a part of it)
+            let k = if tape.draw(4) == 0 {
+                let part = tape.draw(4);
+                w.stats.inc("app.send-with-closure");
+                guard("tcp::send", || {
+                    s.send(|b| {
+                        let mut k = b.len().min(buf.len());
+                        if part == 0 && k > 1 {
+                            k /= 2;
+                        }
+                        b[..k].copy_from_slice(&buf[..k]);
+                        (k, k)
+                    })
+                })?
+            } else {
+                guard("tcp::send_slice", || s.send_slice(&buf))?
+            };
             match k {
                 Ok(k) => {
                     if k > want {
@@ -987,7 +1004,24 @@ fn app_step(w: &mut World, st: &mut St, n: usize, tape: &mut Tape) -> Result<boo
                     }
                 }
             }
-            let r = guard("tcp::recv_slice", || s.recv_slice(&mut buf[..]))?;
+            // recv_slice, or the closure form consuming only a part of the contiguous piece it is shown
+            let r = if tape.draw(4) == 0 {
+                let part = tape.draw(3);
+                w.stats.inc("app.recv-with-closure");
+                let bufm = &mut buf;
+                guard("tcp::recv", || {
+                    s.recv(|b| {
+                        let mut k = b.len().min(bufm.len());
+                        if part == 0 && k > 1 {
+                            k -= k / 3;
+                        }
+                        bufm[..k].copy_from_slice(&b[..k]);
+                        (k, k)
+                    })
+                })?
+            } else {
+                guard("tcp::recv_slice", || s.recv_slice(&mut buf[..]))?
+            };
             match r {
                 Ok(0) => break,
                 Ok(k) => {
